@@ -27,6 +27,20 @@ import (
 	"verif/lib/vlib"
 )
 
+// UBase / UUser: a promoted field of an exported embedded struct (read through the process-wide
+// attribute cache from the second lookup on)
+type UBase struct {
+	ID   int
+	Name string
+}
+type UUser struct {
+	UBase
+	Email string
+}
+
+func (u UUser) Tag() string   { return "tag:" + u.Name }
+func (u *UUser) PTag() string { return "ptag:" + u.Email }
+
 var lib = map[string][2]string{
 	"a":     {"A:{{ x }}", "A2:{{ x }}{{ y }}"},
 	"b":     {"B{% if x %}1{% else %}0{% endif %}", "B2{% for i in xs %}{{ i }}{% endfor %}"},
@@ -62,6 +76,8 @@ var lib = map[string][2]string{
 	// core names that another engine may redefine; zz* exist only where a configuration registered them
 	"flt":  {"{{ 'abc'|upper }}|{{ max(1, 7, 3) }}|{% if 4 is even %}even{% else %}odd{% endif %}|{{ '<b>'|e }}|{{ 'q'|escape }}", "{{ 'x'|lower }}"},
 	"fltx": {"{{ 'x'|zzcustom }}", "{{ zzfn() }}"},
+	// struct values and pointers: fields, promoted fields, methods
+	"st": {"{{ u.Name }}/{{ u.Email }}/{{ u.ID }}/{{ u.Tag }}|{{ pu.Name }}/{{ pu.PTag }}/{{ pu.UBase.ID }}", "{{ pu.Email }}{{ u.UBase.Name }}"},
 }
 
 // deps: what a template needs registered besides itself (the pristine oracle registers only these,
@@ -70,7 +86,7 @@ var deps = map[string][]string{
 	"inc": {"a", "b"}, "child": {"base"}, "use": {"lib"}, "sb": {"a"}, "la": {"a"}, "lb": {"base"},
 	"bimp": {"lib", "bad"}, "bim2": {"bad"}, "binc": {"bad"}, "bwth": {"a"}, "bext": {"bad"}, "bmac": {"lib"}, "incx": {"child", "sb"},
 }
-var names = []string{"a", "b", "loop", "inc", "base", "child", "lib", "use", "bad", "sb", "j", "um", "ub", "cs1", "cs2", "tw1", "tw2", "bimp", "bim2", "binc", "bext", "bmac", "bwth", "incx", "flt", "fltx"}
+var names = []string{"a", "b", "loop", "inc", "base", "child", "lib", "use", "bad", "sb", "j", "um", "ub", "cs1", "cs2", "tw1", "tw2", "bimp", "bim2", "binc", "bext", "bmac", "bwth", "incx", "flt", "fltx", "st"}
 
 // templates served by an ArrayLoader (re-read when the cache is off)
 var loaded = map[string]string{
@@ -80,7 +96,8 @@ var loaded = map[string]string{
 var loadedNames = []string{"la", "lb"}
 
 var ctxs = []map[string]interface{}{
-	{"x": 1, "y": "Y", "xs": []interface{}{1, 2}, "Title": "T1", "title": "t1", "TITLE": "T2", "tiTle": "t3", "Xs": []interface{}{9}, "i": "i!"},
+	{"x": 1, "y": "Y", "xs": []interface{}{1, 2}, "Title": "T1", "title": "t1", "TITLE": "T2", "tiTle": "t3", "Xs": []interface{}{9}, "i": "i!",
+		"u": UUser{UBase{7, "alice"}, "a@example.org"}, "pu": &UUser{UBase{8, "bob"}, "b@example.org"}},
 	{},
 	{"x": "<b>", "xs": []interface{}{}, "y": map[string]interface{}{"k": []interface{}{"n"}}},
 }
